@@ -162,6 +162,15 @@ fn main() {
     hash!(o, jh_x86_64::Jh256, "Jh256", 64, |m| vref::jh::jh(&jt, 256, m), long);
     hash!(o, jh_x86_64::Jh384, "Jh384", 64, |m| vref::jh::jh(&jt, 384, m), long);
     hash!(o, jh_x86_64::Jh512, "Jh512", 64, |m| vref::jh::jh(&jt, 512, m), long);
+    // Groestl selects its implementation itself (lazy run-time detection with std, cfg(target_feature) without)
+    #[cfg(feature = "groestl")]
+    {
+        let gt = vref::groestl::Tables::new();
+        hash!(o, groestl_aesni::Groestl224, "Groestl224", 64, |m| vref::groestl::groestl(&gt, 224, m), long);
+        hash!(o, groestl_aesni::Groestl256, "Groestl256", 64, |m| vref::groestl::groestl(&gt, 256, m), long);
+        hash!(o, groestl_aesni::Groestl384, "Groestl384", 128, |m| vref::groestl::groestl(&gt, 384, m), long);
+        hash!(o, groestl_aesni::Groestl512, "Groestl512", 128, |m| vref::groestl::groestl(&gt, 512, m), long);
+    }
     #[cfg(all(cryptocorrosion_verif, not(feature = "ppv_no_simd"), not(feature = "chacha_no_simd")))]
     let taken: Vec<usize> = ppv_lite86::x86_64::verif::taken_counts().to_vec();
     #[cfg(not(all(cryptocorrosion_verif, not(feature = "ppv_no_simd"), not(feature = "chacha_no_simd"))))]
